@@ -28,19 +28,25 @@
 #ifndef KEYLEN
 #define KEYLEN 2
 #endif
+#ifndef KEYDELIM
+#define KEYDELIM 1          /* 1: the key is presented 'key'; 3: '''key''' (what write_char chooses for a key holding both quote characters) */
+#endif
+/* whether "key" + delimiters + ':' can stand on one line at all; when not, the table cannot be written and must be refused */
+#define KEY_FITS (KEYLEN + 2 * KEYDELIM + 1 <= CIF_LINE_LENGTH)
 extern UChar vout[SINK_MAX]; extern int vout_len, sink_overflow, sink_badfmt;
 int __CPROVER_file_local_ciffile_c_write_item(UChar *name, cif_value_tp *value, void *context);
 static int leaf_calls;
 /* the leaf, as the writer queries show the presentation writers to behave */
 int __CPROVER_file_local_ciffile_c_write_char(void *context, cif_value_tp *v, int allow_text) {
-    write_context_t *c = (write_context_t *) context; const UChar *t = v->as_char.text; int n = 0, i, tl;
+    write_context_t *c = (write_context_t *) context; const UChar *t = v->as_char.text; int n = 0, i, tl, d;
     while (t[n]) n++;
-    tl = n + (allow_text ? 0 : 2);
+    tl = n + (allow_text ? 0 : 2 * KEYDELIM);
     leaf_calls++;
+    if (!allow_text && tl > CIF_LINE_LENGTH) return CIF_DISALLOWED_VALUE;   /* a key that needs a text field is refused (write_char, shown by the dispatch queries) */
     if (c->last_column + tl > CIF_LINE_LENGTH) { if (vout_len < SINK_MAX - 1) vout[vout_len++] = 0x0a; else sink_overflow = 1; c->last_column = 0; }
-    if (!allow_text) { if (vout_len < SINK_MAX - 1) vout[vout_len++] = 0x27; else sink_overflow = 1; }
+    if (!allow_text) for (d = 0; d < KEYDELIM; d++) { if (vout_len < SINK_MAX - 1) vout[vout_len++] = 0x27; else sink_overflow = 1; }
     for (i = 0; i < n; i++) { if (vout_len < SINK_MAX - 1) vout[vout_len++] = t[i]; else sink_overflow = 1; }
-    if (!allow_text) { if (vout_len < SINK_MAX - 1) vout[vout_len++] = 0x27; else sink_overflow = 1; }
+    if (!allow_text) for (d = 0; d < KEYDELIM; d++) { if (vout_len < SINK_MAX - 1) vout[vout_len++] = 0x27; else sink_overflow = 1; }
     c->last_column += tl;
     return CIF_OK;
 }
@@ -54,11 +60,11 @@ static UChar KEY1[KEYLEN + 1], KEY2[3] = { 'q', '2', 0 };
 static void put(cif_value_tp *table, const UChar *k, cif_value_tp *e) { int rc = cif_value_set_item_by_key(table, k, e); V_ASSUME(rc == CIF_OK); cif_value_free(e); }
 /* expected token sequence, written by the builder alongside the value */
 #define MAXTOK 12
-#define MAXTL (ELEN > KEYLEN + 3 ? ELEN + 1 : KEYLEN + 4)
+#define MAXTL (ELEN > KEYLEN + 2 * KEYDELIM + 1 ? ELEN + 1 : KEYLEN + 2 * KEYDELIM + 2)
 static UChar expt[MAXTOK][MAXTL + 1]; static int nexp;
 static void ex_lit(const char *s) { int i = 0; while (s[i]) { expt[nexp][i] = (UChar) s[i]; i++; } expt[nexp][i] = 0; nexp++; }
 static void ex_word(UChar first, int len) { int i; for (i = 0; i < len; i++) expt[nexp][i] = (i == 0) ? first : 'x'; expt[nexp][len] = 0; nexp++; }
-static void ex_key(const UChar *k) { int i = 0; expt[nexp][0] = 0x27; while (k[i]) { expt[nexp][i + 1] = k[i]; i++; } expt[nexp][i + 1] = 0x27; expt[nexp][i + 2] = ':'; expt[nexp][i + 3] = 0; nexp++; }
+static void ex_key(const UChar *k) { int i = 0, d, j = 0; for (d = 0; d < KEYDELIM; d++) expt[nexp][j++] = 0x27; while (k[i]) expt[nexp][j++] = k[i++]; for (d = 0; d < KEYDELIM; d++) expt[nexp][j++] = 0x27; expt[nexp][j++] = ':'; expt[nexp][j] = 0; nexp++; }
 static cif_value_tp *build(void) {
     cif_value_tp *v, *w; int i; KEY1[0] = 'k'; for (i = 1; i < KEYLEN; i++) KEY1[i] = 'y'; KEY1[KEYLEN] = 0;
 #if SSHAPE == 0            /* [ ] */
@@ -94,6 +100,11 @@ void harness(void) {
     v = build(); vout_len = 0;
     rc = __CPROVER_file_local_ciffile_c_write_item(NULL, v, &ctx);
     V_ASSERT(!sink_badfmt && !sink_overflow, "harness sink adequate");
+#if SSHAPE >= 3 && SSHAPE <= 8 && !KEY_FITS
+    /* no layout exists: the key's closing delimiter and its colon cannot share a line */
+    V_ASSERT(rc == CIF_DISALLOWED_VALUE, "a table key that cannot be written with its colon is refused with CIF_DISALLOWED_VALUE");
+    cif_value_free(v); V_COVER("end");
+#else
     V_ASSERT(rc == CIF_OK, "a composite value whose leaves can be written is written");
     V_ASSERT(ctx.write_item_names == names0 && ctx.separate_values == sep0, "the context flags are restored");
     cur = col0; for (i = 0; i < vout_len; i++) { if (vout[i] == 0x0a) { if (cur > maxline) maxline = cur; cur = 0; } else cur++; } if (cur > maxline) maxline = cur;
@@ -116,4 +127,5 @@ void harness(void) {
     V_ASSERT(ntok == nexp && !bad_tok, "the output is exactly the token sequence the value denotes, in order");
     cif_value_free(v);
     V_COVER("end");
+#endif
 }
